@@ -2,6 +2,8 @@
 //! Subcommands (one per conformance direction / subsystem); each reads ndjson emitted by TLC
 //! (behaviours) or writes ndjson traces, and prints a JSON summary on stdout.
 mod codecreplay;
+mod concmodel;
+mod concreplay;
 mod crashreplay;
 mod eagerreplay;
 mod importreplay;
@@ -35,6 +37,8 @@ fn main() {
         "codecreplay" => codecreplay::main(&args[2..]),
         "lazyreplay" => lazyreplay::main(&args[2..]),
         "openreplay" => openreplay::main(&args[2..]),
+        "concreplay" => concreplay::main(&args[2..]),
+        "concmodel" => concmodel::main(&args[2..]),
         "openprobe" => openreplay::probe_main(&args[2..]),
         other => {
             eprintln!("unknown subcommand {other}");
